@@ -286,7 +286,7 @@ func init() {
 
 func c18Depth(tier string) int {
 	if tier == "thorough" {
-		return 4
+		return 5
 	}
 	return 3
 }
